@@ -21,6 +21,10 @@ and the flushes of the parked messages.  One thread step per region between two 
 * `respond` — a `ResponseTree` arrives (`handleSendTree`): stored only while requested-and-missing,
               then `RegisterTree` = `Set` + `checkPendingMessages`
 * `localSet`— a local `RegisterTree`
+* `localStart` — a run started on this server (`CreateProtocol` / `StartProtocol`, overlay.go 735-789): the
+              instance is listed under a fresh token (`NewTreeNodeInstanceFromService` / `…FromProtocol`
+              792-820: a new `RoundID`) and the tree is registered — `RegisterTree` = `Set` + flush —
+              whatever the store held for it, in particular when it was only *requested* from a peer
 * `flush`   — the goroutine of `checkPendingMessages`: takes every parked message of the tree under
               the lock and re-enters `TransmitMsg` for each (over-approximated by independent
               arrival threads — more schedules than reality, sound for universal statements)
@@ -57,6 +61,7 @@ inductive Act where
   | localSet
   | flush
   | expire
+  | localStart
   deriving Repr
 
 /-- messages numbered 1000 and above carry a token that names no node of the tree: `TransmitMsg`
@@ -66,6 +71,15 @@ def bad (m : Nat) : Bool := 1000 ≤ m
 /-- the token a message is addressed to: the harness runs two rounds per tree and sends message `m`
 to the instance of round `m % 2` (any function would do — the theorems do not depend on it) -/
 def tok (m : Nat) : Nat := m % 2
+
+/-- the token of an instance started on this server: a fresh round, so no message that arrives from a
+peer run carries it (`tok m < 2`) -/
+def localTok : Nat := 2
+
+/-- `handleRequestTree` (overlay.go 437-466): a peer that asks for the tree — what a server does on the
+first message of a run whose tree it has not seen — gets it iff `treeStorage.Get` finds it stored; a
+tree that is only requested (nil entry) is "couldn't find the tree" and the peer is left without answer -/
+def answersTreeRequest (s : St) : Bool := s.tree == .present
 
 /-- the creation path of `TransmitMsg` spawns a flush: the instance the message names is not listed
 yet and some message of the tree is parked (`hasPendingMsg`) -/
@@ -120,6 +134,9 @@ def step (s : St) : Act → Option St
       if s.tree = .present ∧ s.insts ≠ [] ∧ s.parked = [] ∧ s.flushes = 0 ∧ (∀ t ∈ s.thr, t.pc = .done) then
         some { s with tree := .absent, insts := [] }
       else none
+  | .localStart =>
+      some { s with tree := .present, flushes := s.flushes + 1,
+                    insts := (if s.insts.contains localTok then s.insts else s.insts ++ [localTok]) }
 
 /-- a schedule: disabled actions are skipped -/
 def run (s : St) : List Act → St
@@ -176,6 +193,7 @@ def drain (x : St) : St :=
 def netDrain (x : Net.St) : Net.St :=
   let x := (List.range x.thr.length).foldl (fun acc i => Net.run acc [.thread i, .thread i, .thread i, .thread i]) x
   let x := (List.range x.dialed.length).foldl (fun acc _ => Net.run acc [.accept 0]) x
+  let x := (List.range x.junk.length).foldl (fun acc _ => Net.run acc [.recvJunk 0]) x
   (List.range x.wire.length).foldl (fun acc _ => Net.run acc [.recv 0]) x
 
 /-- what was dispatched since `n0`, sorted, and the sizes of the two tables of the pair -/
@@ -186,7 +204,8 @@ def netObs (x : Net.St) (n0 a b : Nat) : String :=
 
 /-- the router class: `nstart <n> <tcp>`; `nsend <a> <b> <v>` (one `Send`, run to the end); `nrace <a> <b> <v> <w>`
 (two concurrent `Send`s of a to b: both look the connection up before either registers one); `nopen <a> <b> <v> <w>`
-(a sends to b while b sends to a, both look up first) -/
+(a sends to b while b sends to a, both look up first); `njunk <a> <b> <kind> <v> <w>` (an undecodable frame between
+two values on one connection) -/
 def nstep (s : State) (toks : List String) : Option (State × String) :=
   match toks with
   | ["nstart", _, _] => some ({ s with net := {} }, "ok")
@@ -213,6 +232,22 @@ def nstep (s : State) (toks : List String) : Option (State × String) :=
       let x := netDrain (Net.run s.net [.send a b v, .send b a w, .thread i, .thread (i + 1)])
       some ({ s with net := x }, netObs x n0 a b)
     | _, _, _, _ => some (s, "bad-op")
+  -- `njunk <a> <b> <kind> <v> <w>`: a sends v to b, then — while b's receive goroutine is still busy with v — a
+  -- frame b cannot decode (kind 0: a type id nobody registered, kind 1: a registered type whose body the
+  -- receiver's suite refuses) and w behind it on the same connection; both values are dispatched
+  | ["njunk", a, b, k, v, w] =>
+    match a.toNat?, b.toNat?, k.toNat?, v.toNat?, w.toNat? with
+    | some a, some b, some k, some v, some w =>
+      if a = b || k > 1 then some (s, "bad-op") else
+      let n0 := s.net.dispatched.length
+      let i := s.net.thr.length
+      let x := Net.run s.net [.send a b v, .thread i, .thread i, .thread i, .thread i]
+      match Net.step x (.junk a b) with
+      | some x1 =>
+        let x2 := netDrain (Net.run x1 [.send a b w])
+        some ({ s with net := x2 }, netObs x2 n0 a b)
+      | none => some (s, "disabled")
+    | _, _, _, _, _ => some (s, "bad-op")
   | _ => none
 
 /-- ops: `arrive <tree> <m>` (the thread runs to its first hook point), `thread <tree> <m>` (the
@@ -258,6 +293,14 @@ def step (s : State) (toks : List String) : State × String :=
     match t.toNat? with
     | some t =>
       match C01.step (get s t) .localSet with
+      | some x => (set s t x, obs x)
+      | none => (s, "disabled")
+    | none => (s, "bad-op")
+  -- a run started on this server on tree t: instance listed, tree registered, one flush spawned
+  | ["localstart", t] =>
+    match t.toNat? with
+    | some t =>
+      match C01.step (get s t) .localStart with
       | some x => (set s t x, obs x)
       | none => (s, "disabled")
     | none => (s, "bad-op")
